@@ -140,7 +140,7 @@ func protoMode(args []string) int {
 	thorough := cf.Tier == "thorough"
 	circ, err := loadCircuit(repo)
 	if err != nil {
-		o.Fail("c18-harness", map[string]any{"err": err.Error()})
+		failK(o, "c18-harness", map[string]any{"err": err.Error()})
 		return 0
 	}
 	digits, sum := countsDigits(circ)
@@ -167,7 +167,7 @@ func protoMode(args []string) int {
 			if err != nil {
 				dt := detail()
 				dt["err"] = err.Error()
-				o.Fail("c18-session-error", dt)
+				failK(o, "c18-session-error", dt)
 				continue
 			}
 			o.Count("sessions_" + ci.name)
@@ -179,7 +179,7 @@ func protoMode(args []string) int {
 				dt := detail()
 				dt["got"] = hxlib.Hex(s.digest[:])
 				dt["want"] = hxlib.Hex(want[:])
-				o.Fail("c18-wrong-digest", dt)
+				failK(o, "c18-wrong-digest", dt)
 			}
 			// 2. documented sizes
 			d1, d2, d3, dg, de := docSizes(ci)
@@ -187,7 +187,7 @@ func protoMode(args []string) int {
 				dt := detail()
 				dt["got"] = fmt.Sprint(len(s.r1b), len(s.r2b), len(s.r3b), len(s.gsb), len(s.esb))
 				dt["want"] = fmt.Sprint(d1, d2, d3, dg, de)
-				o.Fail("c18-size-mismatch", dt)
+				failK(o, "c18-size-mismatch", dt)
 			}
 			// 3. restarts at every boundary, each value alone, all together
 			// and a few random combinations
@@ -200,7 +200,7 @@ func protoMode(args []string) int {
 					dt := detail()
 					dt["restart"] = maskName(m)
 					dt["diverge"] = clip(dv, 300)
-					o.Fail("c18-restart-diverges", dt)
+					failK(o, "c18-restart-diverges", dt)
 				}
 				o.Count("restart_variants")
 				o.Count("restart_" + maskName(m))
@@ -229,7 +229,7 @@ func protoMode(args []string) int {
 					dt := detail()
 					dt["decoder"] = kb.k
 					dt["class"] = d.class
-					o.Fail("c18-enc-dec-not-identity", dt)
+					failK(o, "c18-enc-dec-not-identity", dt)
 				}
 				// field-wise identity
 				var orig string
@@ -248,7 +248,7 @@ func protoMode(args []string) int {
 				if d.class == "ok" && d.dump != orig {
 					dt := detail()
 					dt["decoder"] = kb.k
-					o.Fail("c18-enc-dec-not-identity", dt)
+					failK(o, "c18-enc-dec-not-identity", dt)
 				}
 				o.Count("real_payload_" + kb.k)
 			}
@@ -266,7 +266,7 @@ func protoMode(args []string) int {
 			class, msg := expectError(f)
 			o.Count("mismatch_" + what + "_" + class)
 			if class == "panic" || (wantErr && class != "err") {
-				o.Fail("c18-mismatch-not-rejected", map[string]any{"curve": ci.name, "what": what, "class": class, "msg": msg,
+				failK(o, "c18-mismatch-not-rejected", map[string]any{"curve": ci.name, "what": what, "class": class, "msg": msg,
 					"rerun": fmt.Sprintf("c18 proto -seed %d -n %d -tier %s", cf.Seed, cf.N, cf.Tier)})
 			}
 		}
